@@ -19,14 +19,22 @@ THEOREMS = [
     "Typedpy.C02.toDecimal_exact", "Typedpy.C02.toDecimal_reject", "Typedpy.C02.decimal_field_exact",
     "Typedpy.C02.decimal_field_reject", "Typedpy.C02.decimal_reads_decimal", "Typedpy.C02.constructD_complete",
     "Typedpy.C02.constructD_reject", "Typedpy.C02.decimal_example",
+    "Typedpy.C02.ipv4_field_chars", "Typedpy.C02.hostname_field_chars",
+    "Typedpy.C02.bridge_instantiate_complete", "Typedpy.C02.bridge_instantiate_reject", "Typedpy.C02.bridge_example",
 ]
 RULE = ("classes from the type-directed declaration generator (depth <= 3/4, each constraint keyword p~0.35); "
         "per field: valid-by-construction kwargs, ALL boundary neighbours of every bound (enumerated), one value "
         "of every other Python type, single-point corruptions, None, missing, extra kwarg; a case is non-trivial "
-        "if its class has >=1 constraint or nesting >= 1, distinct by sha256 of the canonical case line")
+        "if its class has >=1 constraint or nesting >= 1, distinct by sha256 of the canonical case line; plus (round 5) the same streams with the extended declaration "
+        "generator (SizedString / IPV4 / HostName / DateString / TimeString / JSONString at every scalar position, directed valid / near-valid pools in 13 container "
+        "positions; Lean, an independent Python implementation and typedpy are compared on every string), a transplant stream (typed wrappers read from laxer instances as "
+        "arguments), a DecimalNumber stream (bare / Array items / Map values; int, float, Decimal, bool, every numeric-string spelling, boundary neighbours in each type, "
+        "ill-formed strings, other types; NaN / Infinity / beyond-context values judged on the real code alone) and an oracle-only DateTime / DateField / TimeField stream "
+        "(documented decision from the docstrings; ints and floats of every magnitude, bools)")
 ASSUMPTIONS = [
     "numeric domain: finite non-bool numbers; ints given to Float fields have |n| < 2^53; multiplesOf is a non-zero int",
-    "regex behaviour is an oracle (Python re answers are supplied to the model per case)",
+    "regex behaviour is an oracle (Python re answers are supplied to the model per case); so are datetime.strptime, json.loads and Decimal(str) (standard library, never typedpy); IPV4 / HostName are decided in Lean",
+    "DecimalNumber with multiplesOf: |value| < 10^26 (Decimal % int must stay inside the decimal context)",
     "PYTHONHASHSEED=0 (order of required parameters comes from a set); with several invalid fields the model's set of exception classes is compared",
 ]
 
@@ -107,6 +115,11 @@ def judge(case, impl, model):
     msg = S.correspondence(case, impl, model)
     fails = list(dev)
     if "unbuildable" in impl or "abstraction_mismatch" in impl:
+        return msg, fails
+    crash = S.reraise_crash(impl)
+    if crash:
+        fails.append((f"error-class:reraise-crash:{crash}", f"the constructor failed while building its own exception: {impl.get('err')}: {impl.get('msg')} for "
+                      + json.dumps(case["kw"])[:200]))
         return msg, fails
     kind = S.top_kind(case)
     admits = model["admits"]
